@@ -95,6 +95,34 @@ theorem scan_orfs_exact_partial (seq : Seq) (fwd : Bool) (offset minLen : Int) (
   · rintro ⟨s, e, h1, h2, h3⟩; exact ⟨s, e, h1, by omega, h3⟩
   · rintro ⟨s, e, h1, h2, h3⟩; have := h s e h1; exact ⟨s, e, h1, by omega, h3⟩
 
+/-- ORF lengths are multiples of three, so `NoExactLen` holds for free when `minLen` is not -/
+theorem no_exact_len_off_multiples (w : Seq) (minLen : Int) (h3 : minLen % 3 ≠ 0) : NoExactLen w minLen := by
+  intro s e ho heq
+  have := ho.frame; have := ho.lt
+  simp only [orfLen] at heq
+  omega
+
+/-- …nor when `minLen` exceeds the window, or is below the shortest possible ORF (6 nt) -/
+theorem no_exact_len_out_of_range (w : Seq) (minLen : Int) (h : minLen < 6 ∨ (w.length : Int) < minLen) :
+    NoExactLen w minLen := by
+  intro s e ho heq
+  have := ho.frame; have := ho.lt; have := ho.inside
+  simp only [orfLen] at heq
+  omega
+
+/-- `scan_orfs` as a whole with the documented bound "at least `minLen`", unconditionally, for every
+    `minLen` that is not a multiple of three, is below 6 or exceeds the sequence — D23 only bites
+    when an ORF of exactly `minLen` can exist -/
+theorem scan_orfs_exact_off_multiples (seq : Seq) (fwd : Bool) (offset minLen : Int) (recLen : Option Int)
+    (h : minLen % 3 ≠ 0 ∨ minLen < 6 ∨ ((upper seq).length : Int) < minLen) (l : Loc) :
+    l ∈ scanOrfs seq fwd offset minLen recLen ↔
+      ∃ s e, IsOrf (upper seq) s e ∧ minLen ≤ orfLen s e ∧
+        l = orfLoc fwd (upper seq).length offset recLen s e := by
+  apply scan_orfs_exact_partial
+  rcases h with h | h
+  · exact no_exact_len_off_multiples _ _ h
+  · exact no_exact_len_out_of_range _ _ h
+
 /-- the codon tables of the tree under test (regenerated every run) hold exactly the codons the
     property names; the spec itself never reads them -/
 theorem codon_tables_as_documented :
@@ -344,6 +372,27 @@ theorem all_orfs_exact_strict (rec : Seq) (cross : Bool) (parts : List (Int × I
       · exact Or.inr ((mem_scanOrfs _ _ _ _ _ _).2 ⟨s, e, h1, h2, by rw [h3, upper_length, revComp_length]⟩)
       · exact Or.inl ((mem_scanOrfs _ _ _ _ _ _).2 ⟨s, e, h1, h2, by rw [h3, upper_length]⟩)
 
+/-- the same with the documented bound `≥ minLen` when `minLen` is not a multiple of three or is
+    below 6 (no ORF can be exactly that long; otherwise D23, known finding) -/
+theorem all_orfs_exact_off_multiples (rec : Seq) (cross : Bool) (parts : List (Int × Int × List Gene))
+    (minLen pad : Int) (hm : minLen % 3 ≠ 0 ∨ minLen < 6) (locs : List Loc)
+    (h : findAllOrfs rec cross parts minLen pad = some locs) (l : Loc) :
+    l ∈ locs ↔ ∃ areas, orfAreas rec.length cross parts minLen pad = some areas ∧
+      ∃ a ∈ areas, ∃ fwd s e,
+        IsOrf (upper (strandWindow fwd (chunkOf rec a.1 a.2))) s e ∧ minLen ≤ orfLen s e ∧
+        l = orfLoc fwd (chunkOf rec a.1 a.2).length a.1 (some (rec.length : Int)) s e := by
+  rw [all_orfs_exact_strict rec cross parts minLen pad locs h l]
+  have key : ∀ (w : Seq) (s e : Nat), IsOrf w s e → (minLen < orfLen s e ↔ minLen ≤ orfLen s e) := by
+    intro w s e ho
+    have := ho.frame; have := ho.lt
+    simp only [orfLen]
+    omega
+  constructor
+  · rintro ⟨areas, ha, a, hmem, fwd, s, e, h1, h2, h3⟩
+    exact ⟨areas, ha, a, hmem, fwd, s, e, h1, (key _ s e h1).1 h2, h3⟩
+  · rintro ⟨areas, ha, a, hmem, fwd, s, e, h1, h2, h3⟩
+    exact ⟨areas, ha, a, hmem, fwd, s, e, h1, (key _ s e h1).2 h2, h3⟩
+
 /-- completeness, spelled out: when the gap search yields `areas` inside the record, the call
     succeeds and every ORF longer than `minLen` of every gap, on either strand, is among the
     locations returned (at the coordinates `orf_coords_extract_*` show to be the right ones) -/
@@ -454,6 +503,38 @@ theorem all_orfs_avoid_every_gene_crossing (rec : Seq) (genes : List Lookup.Gene
     (h : findAllOrfsRec rec genes (some (.compound [⟨a, rec.length, s1⟩, ⟨0, b, s2⟩])) minLen pad = some locs) :
     ∀ l ∈ locs, locOverlapOk (genes.map (·.loc)) pad l = true :=
   findAllOrfsRec_overlap_crossing rec genes hs hok a b s1 s2 minLen pad hpad hmin hb hba haL hcross locs h
+
+/-- `return sorted(new_features)`: the features come back as a rearrangement of what the scans found,
+    in `Feature.__lt__` order (C08's `locLt`: by start — origin-crossing locations by their negative head
+    start, i.e. first — then by length); nothing is lost or invented by the sort, so every statement above
+    about the locations found holds for the list returned -/
+theorem all_orfs_sorted (rec : Seq) (genes : List Lookup.Gene) (area : Option Loc) (minLen pad : Int)
+    (out : List Loc) (h : findAllOrfsSorted rec genes area minLen pad = some out) :
+    ∃ locs, findAllOrfsRec rec genes area minLen pad = some locs ∧ out.Perm locs ∧
+      out.Pairwise (fun a b => Lookup.locLt b a = false) ∧ ∀ l, l ∈ out ↔ l ∈ locs := by
+  unfold findAllOrfsSorted at h
+  cases hl : findAllOrfsRec rec genes area minLen pad with
+  | none => rw [hl] at h; simp only [Option.map_none, reduceCtorEq] at h
+  | some locs =>
+    rw [hl] at h
+    simp only [Option.map_some, Option.some.injEq] at h
+    subst h
+    exact ⟨locs, rfl, sortLocs_perm locs, sortLocs_sorted locs, fun l => (sortLocs_perm locs).mem_iff⟩
+
+/-- `Record.get_aa_translation_from_location` refuses locations with `location.end > len(record)`; the
+    locations `scan_orfs` reports on a ring never trip that guard (and have `location.start ≥ 0`) -/
+theorem orf_location_inside_record (fwd : Bool) (n : Nat) (offset L : Int) (s e : Nat) (hL : 0 < L) (hs : s < e)
+    (hlen : orfLen s e ≤ L) :
+    0 ≤ (orfLoc fwd n offset (some L) s e).start ∧ (orfLoc fwd n offset (some L) s e).end ≤ L := by
+  rw [orfLoc_ring fwd n offset L s e hL hs hlen]
+  have hnn : 0 ≤ orfBase fwd n offset s e % L := Int.emod_nonneg _ (by omega)
+  have hlt : orfBase fwd n offset s e % L < L := Int.emod_lt_of_pos _ hL
+  have hm : 0 < orfLen s e := by simp only [orfLen]; omega
+  split
+  · simp only [Loc.start, Loc.end]; omega
+  · cases fwd <;>
+    simp only [Bool.false_eq_true, if_false, if_true, Loc.start, Loc.end, minList, maxList, List.map_cons,
+      List.map_nil, List.foldl_cons, List.foldl_nil] <;> omega
 
 /-! ### 5c. "each with a translation matching its location" -/
 
@@ -607,6 +688,9 @@ example : findAllOrfsRec "CCATGAAATAACCCCCCCCCCCCCCCCCCC".toList [] none 6 0 = s
 /-- D66-C15: an origin-spanning gene whose hull does not begin at 0 — join{[90,100),[20,40)} — is listed first by
     the record; ordered by start, the gene [0,15) still blocks its stretch -/
 example : findIntergenic 0 100 [⟨20, 100⟩, ⟨0, 15⟩] 6 0 = [] := by decide
+/-- the returned order: the reverse-strand ORF over the origin sorts first, whatever its coordinates -/
+example : sortLocs [.simple ⟨5, 20, .fwd⟩, .compound [⟨0, 8, .rev⟩, ⟨50, 60, .rev⟩], .simple ⟨2, 11, .fwd⟩]
+    = [.compound [⟨0, 8, .rev⟩, ⟨50, 60, .rev⟩], .simple ⟨2, 11, .fwd⟩, .simple ⟨5, 20, .fwd⟩] := by decide
 example : sortedByStart [⟨0, 110⟩, ⟨50, 105⟩] := (sortedByStartB_iff _).1 (by decide)
 
 end ASV.C15
